@@ -15,7 +15,7 @@ fails with the change and passes without it. Every change was confirmed here (`t
 tree, patch applied, demo again, whole suite with the patch) before being kept as `/verif/seeded/<id>/` (`patch.diff`,
 `demo.py`, `note.md`, `meta.json`). Checks are run against a change with `tools/try_seeded.sh` (apply to `/repo`, run, revert).
 "MISSED at first" entries say what the check lacked and what was added; after strengthening, every kept change is
-reported as a VIOLATION by at least one quick-tier check, on every run. The changes came in seven waves; the share that a
+reported as a VIOLATION by at least one quick-tier check, on every run. The changes came in eight waves (the last a short one); the share that a
 check missed at first fell from wave to wave on the codec-like properties (C04-C08, C16, C17: 1 of 17 in their second wave) and
 stayed around one in three on the stateful ones (C03, C09, C13, C19), which is where the later waves went. `seeded/REGRESSION.md`
 is the latest re-run of **every** kept change against the current checks and tree (`tools/regress_seeded.py`); changes that a
